@@ -5,6 +5,7 @@ import asyncio
 import errno
 import itertools
 import os
+import shlex
 import shutil
 import signal
 import sys
@@ -175,10 +176,10 @@ class PathCleaner:
         )
 
         for file in self._files_queue:
-            fp.write(f"rm -f '{file.absolute()}'\n")
+            fp.write(f"rm -f {shlex.quote(str(file.absolute()))}\n")
 
         for folder in self._folders_queue:
-            fp.write(f"rm -r '{folder.absolute()}'\n")
+            fp.write(f"rm -r {shlex.quote(str(folder.absolute()))}\n")
 
     def _wipe_threashold_warning(self) -> str:
         return (
